@@ -284,11 +284,15 @@ func (r *runner) replayOne(path string) int {
 	}
 	var rf struct {
 		Property, Harness, Assert string
+		Tier                      string
 		Inputs                    map[string]any
 	}
 	if err := json.Unmarshal(data, &rf); err != nil {
 		fmt.Fprintln(os.Stderr, err)
 		return 2
+	}
+	if rf.Tier != "" {
+		replayTier = rf.Tier // (agentD) replay under the tier the file was recorded in
 	}
 	r.prop = rf.Property
 	r.load(r.harnessDirs(rf.Property))
